@@ -89,8 +89,11 @@ def C45(ctx):
     from concurrent.futures import ThreadPoolExecutor
     # S: laws of the rule set on nominal / one variation / all pairs of variations x VM versions
     # G: cases with expected verdict / input structure / output structure computed by TLA+ (concurrent TLC runs)
-    jobs = [("S", "MCWasmRules", {"PairMode": '"all"', "PairVersions": "{2}" if q else "{0, 1, 2}"}),
-            ("G", "GenWasmRules", {"PairMode": '"pw"' if q else '"allnh"', "PairVersions": "{2}"})]
+    # quick keeps the FULL product of boundary variations (every single variation x 3 VM versions, every pair of
+    # boundary variations of different rule families at the first and the latest VM version); only the bulk
+    # (per-import signature variants, name classes, exotic proposals, 8k-function modules) is left out of the pairs
+    jobs = [("S", "MCWasmRules", {"PairMode": '"all"', "PairVersions": "{0, 2}" if q else "{0, 1, 2}"}),
+            ("G", "GenWasmRules", {"PairMode": '"pw"' if q else '"allnh"', "PairVersions": "{0, 2}" if q else "{2}"})]
     if not q:
         jobs.append(("G2", "GenWasmRules", {"PairMode": '"pw"', "PairVersions": "{0, 1}"}))
     with ThreadPoolExecutor(max_workers=3) as ex:
@@ -101,7 +104,7 @@ def C45(ctx):
     # non-vacuity without -coverage (the coverage reporter runs out of memory on this module's recursive
     # operators): 933 states are the nominal/single/version cases; everything beyond are Pair states, which
     # only exist if Single fired.  The reject classes are covered by the ASSUME in MCWasmRules.
-    if r.distinct < (20000 if q else 70000):
+    if r.distinct < (45000 if q else 70000):
         raise ToolError("MCWasmRules explored only %d states (Pair action not exercised)" % r.distinct)
     g = res["G"]
     tlc_must_pass(g, "GenWasmRules")
@@ -158,7 +161,7 @@ def C45(ctx):
 
     # T: totality + post-conditions on inputs the model did not choose
     tp = ctx.wpath("rules-fuzz.ndjson")
-    vh(BIN, ["rules", "fuzz", "seed=%d" % ctx.seed, "rand=%d" % (5000 if q else 200000), "mut=%d" % (5000 if q else 150000)],
+    vh(BIN, ["rules", "fuzz", "seed=%d" % ctx.seed, "rand=%d" % (3000 if q else 200000), "mut=%d" % (3000 if q else 150000)],
        stdout_path=tp)
     evs = read_ndjson(tp)
     os.unlink(tp)
@@ -230,9 +233,13 @@ def C46(ctx):
     q = ctx.quick
     from concurrent.futures import ThreadPoolExecutor
     # seeded genomes (the decoder, the semantics and all expectations are TLA+)
+    # half of the quick genomes come from a FIXED seed (so that every construct / trap kind / path mark is
+    # present whatever VERIF_SEED is), the rest from ctx.seed
     rng = random.Random(ctx.seed)
     n_rand = 400 if q else 20000
-    genomes = [rng.choices(range(16), weights=GENOME_WEIGHTS, k=30) for _ in range(n_rand)]
+    fixed = random.Random(460046)
+    genomes = [fixed.choices(range(16), weights=GENOME_WEIGHTS, k=30) for _ in range(200)]
+    genomes += [rng.choices(range(16), weights=GENOME_WEIGHTS, k=30) for _ in range(n_rand - 200)]
     nproc = 4 if q else 8
     size = (len(genomes) + nproc - 1) // nproc
     gfiles = []
@@ -244,7 +251,9 @@ def C46(ctx):
     # (limiter invisible at call depth <= 3; recursion family traps exactly above the limit; path determines the
     # kind of outcome) and prints the cases with the expected outcomes
     jobs = [("exh", dict(consts={"Mode": '"exh"', "GLen": "2" if q else "3"}, workers=4)),
-            ("rec", dict(consts={"Mode": '"rec"', "RecPads": "{4, 8}" if q else "{0, 2, 4, 8}"}, workers=2))]
+            # recursion family: paddings 3, 5, 8 give frame costs 10, 12, 15, for which the accounted height hits the
+            # limit EXACTLY (4 + k*cost = 1024) - the tie of the `>` comparison - in both tiers
+            ("rec", dict(consts={"Mode": '"rec"', "RecPads": "{3, 5, 8}" if q else "{0, 2, 3, 4, 5, 8}"}, workers=2))]
     for i, gp in enumerate(gfiles):
         jobs.append(("file%d" % i, dict(consts={"Mode": '"file"'}, env={"GENOMES": gp}, workers=1)))
 
@@ -378,9 +387,11 @@ def C47(ctx):
     jobs = [("S", "MCWasmMem", dict(workers=4, coverage=False) if q else dict(workers=4, consts={"MaxOps": 3}))]
     for name, fset in (("G1", "{1,2,3,4,5,6,7,8}"), ("G2", "{9,10,11,12,13,14,15,16,17,18,19}"),
                        ("G3", "{20,21,22,23,24,25,26,27,28,29,30}")):
-        jobs.append((name, "GenWasmMem", dict(workers=2, coverage=False, consts={"PageSet": "{1}", "FnSet": fset})))
+        # 1 page and (quick and thorough) the grown 2-page memory: full class product for EVERY host function
+        jobs.append((name, "GenWasmMem", dict(workers=2, coverage=False, consts={"PageSet": "{1, 2}", "FnSet": fset})))
+    # only the 0-page and the 64-page memories (slow to fill) use a subset of the functions in quick
     jobs.append(("Gsizes", "GenWasmMem", dict(workers=2, coverage=False,
-                                              consts={"PageSet": "{0, 2, 64}", "FnSet": "{1, 4, 14, 17}" if q else "{}"})))
+                                              consts={"PageSet": "{0, 64}", "FnSet": "{1, 4, 14, 17}" if q else "{}"})))
     if not q:
         jobs.append(("Gsizes2", "GenWasmMem", dict(workers=2, coverage=False,
                                                    consts={"PageSet": "{3, 63}", "FnSet": "{1, 2, 4, 13, 14, 17}"})))
@@ -446,7 +457,7 @@ def C47(ctx):
     fp = ctx.wpath("mem-fns.ndjson")
     write_ndjson(fp, fns[:1])
     tp = ctx.wpath("mem-trace.ndjson")
-    vh(BIN, ["mem", "record", "seed=%d" % ctx.seed, "n=%d" % (2000 if q else 60000), "threads=%d" % THREADS,
+    vh(BIN, ["mem", "record", "seed=%d" % ctx.seed, "n=%d" % (1000 if q else 60000), "threads=%d" % THREADS,
              "big=%d" % (1 if q else 2)], stdin_path=fp, stdout_path=tp)
     evs = read_ndjson(tp)
     os.unlink(tp)
